@@ -109,6 +109,9 @@ func VerifyFunc(ld *Loader, pkg *Pkg, key string) (res *FuncResult) {
 	}
 	fd := pkg.FindFunc(key)
 	if fd == nil || fd.Body == nil {
+		if ct.Trusted {
+			return res
+		}
 		if strings.Contains(key, ".") && !strings.HasPrefix(key, "(") {
 			// interface contract: no body to verify here (refinement obligations are generated separately)
 			res.Trusted = false
